@@ -375,8 +375,9 @@ static Result check_slab(const J &c)
           // a few hundred metres of the trench line and of the slab top
           const ref::PlaneDist pd = ref::planar_slab(segs, qx, qy);
           const double thick = c.at("thick").num();
+          // (only below the model's own cold end member, 273.15 K: between that and the surface temperature it is the listed finding above)
           const bool gibbs = kind == "plate model" && pd.segment >= 0 && pd.along < 0.002 * thick && pd.from > -1.0 && pd.from < 0.02 * thick
-                             && out[0] >= 273.15 - 0.18 * (G.Tp - 273.15) - 1.0;
+                             && out[0] < 273.15 - tau && out[0] >= 273.15 - 0.18 * (G.Tp - 273.15) - 1.0;
           return Result::fail(gibbs ? "slab-plate-model-series-undershoot-at-the-trench" : (listed ? "slab-plate-model-cold-end-273" : "slab-below-surface-temperature/" + kind),
                               "slab '" + kind + "' returns " + fmt(out[0]) + " at depth " + fmt(depth) + " (" + fmt(pd.along) + " m along the slab, " + fmt(pd.from) + " m below its top), colder than the surface temperature " + fmt(G.Ts) + "; model " + m.dump());
         }
